@@ -90,6 +90,20 @@ func cases() []tcase {
 			}
 		}
 	}
+	// M is being resharded out (Proposed, listed under Leaving): only the leader starts the execution (M then moves to
+	// Left) or aborts
+	for _, kind := range []string{"execute", "abort"} {
+		for _, claimed := range []string{"L", "B", "X"} {
+			for _, signer := range []string{"L", "B", "X"} {
+				for _, m := range []string{"none", "metadata-address", "metadata-beacon-id", "signature-bitflip"} {
+					if m != "none" && !(claimed == "L" && signer == "L") {
+						continue
+					}
+					out = append(out, tcase{Base: "leaving", Kind: kind, Claimed: claimed, Signer: signer, Mutation: m, Legit: claimed == "L" && signer == "L" && m == "none"})
+				}
+			}
+		}
+	}
 	return out
 }
 
@@ -207,7 +221,7 @@ func main() {
 	c.Count("distinct", evals)
 	c.Count("packets_that_changed_state", accepted)
 	c.Exhaustive(true)
-	c.Sub("c09-auth", map[string]any{"engine": "E2 depth-1 enumeration from snapshotted base states", "schemes": len(schemes), "base_states": 6, "packets": evals, "changed_state": accepted})
+	c.Sub("c09-auth", map[string]any{"engine": "E2 depth-1 enumeration from snapshotted base states", "schemes": len(schemes), "base_states": 7, "packets": evals, "changed_state": accepted})
 	c.Assume("base states are produced by real commands between three real processes (a real first DKG included) under the scheduler's default schedule and virtual time",
 		"reference predicate: a packet may change M's state iff it is the unmodified packet, signed by the key of the sender it claims, and that sender is entitled (leader: propose/execute/abort; a remaining member: its own accept/reject); a member of a completed epoch authenticates against the keys in its current group; a fresh node accepts any validly self-signed proposer that lists it")
 	c.Finish("one case = one packet (kind x claimed sender x signing key x single-field mutation) delivered to a fresh Process on a snapshot of the base state; states = base states, transitions = packets delivered")
